@@ -334,6 +334,7 @@ def trace_values(trace, functions=None):
     """Collect the last assigned value of every scalar lhs in the trace (optionally only in given
     functions). Returns dict lhs -> dict(data, binary, width, type)."""
     vals = {}
+    counts = {}
     if not trace:
         return vals
     for st in trace:
@@ -347,6 +348,11 @@ def trace_values(trace, functions=None):
         if lhs is None:
             continue
         _flatten(lhs, v, vals, st.get("assignmentType"), fn)
+        # k-th assignment of a scalar of this name (ENV model functions are called several times)
+        if "binary" in v and "[" not in lhs and "." not in lhs:
+            k = counts.get(lhs, 0)
+            counts[lhs] = k + 1
+            vals["%s#%d" % (lhs, k)] = vals[lhs]
     return vals
 
 
@@ -520,7 +526,7 @@ def run_property(ctx, make_jobs, meta):
                 rec = dict(property=prop, job=j.name, functions=j.funcs, failed_obligations=[], cbmc_cmds=j.cmds,
                            counterexample={k: (v.get("data"), hex(bits_of(v)) if bits_of(v) is not None else None)
                                            for k, v in vals.items() if not k.startswith("__CPROVER")
-                                           and "$" not in k and "#" not in k},
+                                           and "$" not in k and "#" not in k and "!" not in k},
                            native_replay=dict(reproduced=reproduced, cmd=" ".join(cmd) if cmd else None, output=native_out),
                            info=j.info)
                 seen_jobs[j.name] = rec
